@@ -15,6 +15,8 @@ ALWAYS_REAL = {"abs", "absolute", "real", "imag", "angle", "var", "std", "linalg
                "linalg.slogdet_not", "isreal", "iscomplex"}
 ALWAYS_COMPLEX = {"fft", "ifft", "fft2", "ifft2", "fftn", "ifftn", "rfft", "rfft2", "rfftn", "ihfft", "linalg.eig", "linalg.eigvals"}
 DATA_DEPENDENT = {"real_if_close", "linalg.eigh", "linalg.svd", "linalg.slogdet", "linalg.qr", "linalg.eig"}
+# a REAL argument can give a COMPLEX result depending on the values (the other DATA_DEPENDENT entries return tuples of mixed kinds)
+VALUE_DEPENDENT_KIND = {"linalg.eig"}
 REAL_ONLY_RESULT_FUNCS = {"real", "imag", "angle", "abs", "absolute", "fabs", "zeros", "ones", "eye", "arange", "linspace_not", "floor", "ceil", "sign",
                           "argsort", "argmax", "argmin", "tri", "tril_indices", "isfinite", "logical_and", "logical_or", "logical_not",
                           "equal", "not_equal", "greater", "less", "greater_equal", "less_equal", "shape", "ndim", "size", "prod_not", "irfft", "irfft2", "irfftn", "linalg.norm", "var", "std"}
@@ -296,21 +298,43 @@ def _run(ctx, world, mode, rule, restrict=None):
         for combo in itertools.product("RC", repeat=len(nums)):
             assign = dict(zip(nums, combo))
             ak = ans_kind(world, e.prim, assign)
-            if ak is None:
+            if ak is None and mode == "vjp" and is_numpy_callable(e.prim) and base_name(e.prim) in VALUE_DEPENDENT_KIND:
+                # the output kind depends on the values (eig of a real matrix may be complex): the cotangent must have
+                # the argument's kind for EITHER output kind
+                aks = ["C"] if "C" in combo else ["R", "C"]
+            elif ak is None:
                 und.append((assign, "output kind is data dependent"))
                 continue
-            if mode == "vjp":
-                K = Kind(world, assign, ak, ak)
-                want = assign[e.argnum]
             else:
-                K = Kind(world, assign, assign[e.argnum], ak)
-                want = ak
-            ks = {K.of(leaf) for _, leaf in leaves(world.ev, ir.result)}
-            ks = {"?" if k == "B" else k for k in ks}
+                aks = [ak]
+            ks = set()
+
+            def decide(a, assign=assign):
+                # iscomplexobj(<differentiable argument>) is decided by the kind assignment under evaluation
+                if a.op == "call" and len(a.args) == 1 and a.args[0].op == "arg" and isinstance(a.args[0].index, int) and a.args[0].index in assign:
+                    rf, _ = resolve_callee(world.ev, a)
+                    if rf is not None and rf.qual.rsplit(".", 1)[-1] == "iscomplexobj":
+                        return assign[a.args[0].index] == "C"
+                return None
+
+            from ..tutil import specialise
+
+            res_ = specialise(ir.result, decide) if base_name(e.prim) in VALUE_DEPENDENT_KIND else ir.result
+            for ak in aks:
+                if mode == "vjp":
+                    K = Kind(world, assign, ak, ak)
+                    want = assign[e.argnum]
+                else:
+                    K = Kind(world, assign, assign[e.argnum], ak)
+                    want = ak
+                ks_ak = {"?" if k == "B" else k for k in {K.of(leaf) for _, leaf in leaves(world.ev, res_)}}
+                if len(aks) > 1 and "?" not in ks_ak and ks_ak != {want}:
+                    bad.append((assign, ks_ak, want))  # definite for this possible output kind
+                ks |= ks_ak
             seen.append(("".join(combo), "/".join(sorted(ks))))
             if "?" in ks:
                 und.append((assign, "?"))
-            elif ks != {want}:
+            elif ks != {want} and not any(b_[0] is assign for b_ in bad):
                 bad.append((assign, ks, want))
         nf = " ".join(f"{a}->{k}" for a, k in seen)
         inst = construct_of(e)
